@@ -16,12 +16,15 @@ MANIFEST = {
             "(hence closure, commutativity, associativity, identity, inverse) for possibly unreduced on-curve inputs; the (e,3e) ladder "
             "computes e•P for every integer e; fixed-base table and blinded multiplication equal plain multiplication; p and n of "
             "secp256k1, secp256r1, BLS12-381 are prime (Pratt certificates checked in the kernel) and n•G = ∞ (kernel evaluation); "
+            "#E(F_p) = n for secp256k1 and secp256r1 (proved without Hasse: #E <= 2p+1 < 3n, n | #E by Lagrange, #E = 2n excluded by "
+            "Cauchy and a generated kernel-checked certificate that x^3+ax+b has no root mod p), hence order•P = ∞ and multiply(P, e) = "
+            "e•P for every curve point, every point other than infinity has order n, no point has y = 0; "
             "points_for_x returns exactly the two points with that abscissa, even y first. Model tied to the code by differential "
             "correspondence in both arithmetic configurations on every run, plus exhaustive toy-curve tables in the thorough tier (tests).",
     "note": "libsecp256k1 is absent in this sandbox: its glue (ecdsa/native/secp256k1.py) is never executed. OpenSSL's EC_POINT_mul / "
-            "BN_mod_inverse are compared differentially with the pure path and the model, not verified. #E(F_p) = n is a published fact "
-            "not provable here: order•P = ∞ is proved for P in <G> only, and refuted for BLS12-381 G1, which has a cofactor (known finding "
-            "bls12-381-cofactor: r*(0,2) is reported as infinity).",
+            "BN_mod_inverse are compared differentially with the pure path and the model, not verified. On a generic curve order•P = ∞ is stated for points "
+            "with n•P = ∞ (C02_order_mul_partial); for secp256k1/secp256r1 it is proved for every curve point (C02_order_mul_secp256k1/_secp256r1); "
+            "for BLS12-381 G1, which has a cofactor, it is refuted (known finding bls12-381-cofactor: r*(0,2) is reported as infinity).",
     "technique": "Lean 4 proof (Mathlib group law, ring/field identities, kernel-checked Pratt certificates) + differential correspondence "
                  "model vs implementation per backend + exhaustive toy-curve enumeration (test)",
 }
@@ -32,12 +35,12 @@ RULE = ("ops ec_add/ec_sub/ec_neg/ec_assoc/ec_mul/ec_rawmul/ec_blindmul/ec_genmu
 ASSUMPTIONS = [
     "libsecp256k1 is not installed: the libsecp256k1 backend is never run; pure Python and OpenSSL-accelerated configurations are",
     "OpenSSL (EC_POINT_mul, BN_mod_inverse) is compared differentially, not verified",
-    "#E(F_p) = n for secp256k1/secp256r1 is not provable here; theorems quantify over points with n•P = ∞ and n•G = ∞ is proved",
+    "the certificates that x^3+ax+b has no root mod p (translate/gen_curves.py, plain Python) are checked in the Lean kernel, not trusted",
     "Python int arithmetic, pow(a, e, m) and ctypes glue are modelled, not verified",
     "toy-curve enumeration (all points/pairs/triples, k in [-2n, 2n]) is a test, not a theorem",
 ]
 TRUSTED = ["translate/gen_curves.py reads (p,a,b,Gx,Gy,n) from the live generator objects; Pratt certificates come from sympy and are "
-           "checked in the Lean kernel, so sympy is not trusted"]
+           "checked in the Lean kernel, so sympy is not trusted; likewise the no-root certificates noroot_* (inverse of X^p - X modulo the cubic)"]
 
 
 def _bls_cofactor(v) -> bool:
@@ -498,6 +501,19 @@ def gen(ctx, emit):
                 emit("ec_shared %s %d %s" % (tok, e, show_pt(P3)))
             for e, b in ((5, 0), (5, 1), (5, n - 1), (5, n), (n - 1, n - 5), (0, 7), (-1, 2 ** 256 - 1), (n, n), (2 ** 256 - 1, 2 ** 255)):
                 emit("ec_blindmul %s %d %d" % (tok, e, b))
+            # finite points with a ZERO coordinate (x = 0 exists when b is a square: secp256r1; none on secp256k1): a test
+            # for infinity written as truthiness of the coordinates takes them for the point at infinity
+            y0 = pow(cb % p, (p + 1) // 4, p)
+            if name != "bls12_381" and (y0 * y0 - cb) % p == 0 and y0 != 0:
+                for Z in ((0, y0), (0, p - y0)):
+                    for e in (1, 2, 3, 7, -1, n - 1, n, n + 1, 2 ** 255 + 12345):
+                        emit("ec_mul %s %s %d" % (tok, show_pt(Z), e), "zero-coordinate")
+                    emit("ec_add %s %s %s" % (tok, show_pt(Z), show_pt(Z)), "zero-coordinate")
+                    emit("ec_add %s %s %s" % (tok, show_pt(Z), show_pt((0, p - Z[1]))), "zero-coordinate")
+                    emit("ec_add %s %s %s" % (tok, show_pt(Z), show_pt(P1)), "zero-coordinate")
+                    emit("ec_neg %s %s" % (tok, show_pt(Z)), "zero-coordinate")
+                    emit("ec_shared %s 5 %s" % (tok, show_pt(Z)), "zero-coordinate")
+                    emit("ec_shared %s %d %s" % (tok, n - 2, show_pt(Z)), "zero-coordinate")
             for x in (0, 1, 2, 3, 4, 5, 6, 7, p - 1, p - 2, p - 3, P1[0], P2[0]):
                 emit("ec_points_for_x %s %d" % (tok, x))
             for x in (p, p + 1, -1, 2 ** 256, P1[0] + p):  # outside 0 <= x < p: correspondence only
